@@ -29,18 +29,24 @@ def elem(h, cls, tag):
         return h.arr(rot2_ref(h, h.angle(tag + 'a')))
     if cls is SE2:
         return hom(h, rot2_ref(h, h.angle(tag + 'a')), h.vec(tag + 't', 2, -1e3, 1e3))
+    # left operands (tag A...) rotate about x, right operands about z: products do not commute, so a swapped operand
+    # order or a reused wrong element is visible
+    rot3 = rotx_ref if tag.startswith('A') else rotz_ref
     if cls is SO3:
-        return h.arr(rotz_ref(h, h.angle(tag + 'a')))
+        return h.arr(rot3(h, h.angle(tag + 'a')))
     if cls is SE3:
-        return hom(h, rotz_ref(h, h.angle(tag + 'a')), h.vec(tag + 't', 3, -1e3, 1e3))
+        return hom(h, rot3(h, h.angle(tag + 'a')), h.vec(tag + 't', 3, -1e3, 1e3))
     if cls is Quaternion:
         return h.vec(tag + 'q', 4, -10, 10)
     if cls is UnitQuaternion:
         s, c = h.sincos(h.angle(tag + 'h'))
-        return h.arr([c, 0, 0, s])
+        return h.arr([c, s, 0, 0]) if tag.startswith('A') else h.arr([c, 0, 0, s])
     if cls is Twist3:
+        # symbolic moment, concrete rotational part (distinct per element, about x for left and z for right operands):
+        # the composition exp/log then branches on concrete numbers only, and operand order / element reuse stay visible
         v = h.vec(tag + 's', 3, -1, 1)
-        return h.arr([v[0], v[1], v[2], 0, 0, 0])
+        k = 0.3 + 0.17 * (int(tag[1:]) if tag[1:].isdigit() else 0)
+        return h.arr([v[0], v[1], v[2], k, 0, 0]) if tag.startswith('A') else h.arr([v[0], v[1], v[2], 0, 0, k + 0.4])
     if cls is Twist2:
         v = h.vec(tag + 's', 2, -1, 1)
         return h.arr([v[0], v[1], 0])
@@ -119,6 +125,10 @@ for _cls, _ops in BINOPS.items():
     for _op in _ops:
         for (_m, _n) in ALL_LEN:
             quick = (_m, _n) in QUICK_LEN or (_m, _n) in ((2, 3), (3, 2))
+            if _cls is Twist3:
+                # composition of twists goes through exp and log: every product forks several times, so the quick tier
+                # takes the length pairs up to 2 (1-with-M, M-with-1, M-with-M, mismatch is covered by 2-with-3 below)
+                quick = (_m, _n) in ((1, 1), (1, 2), (2, 1), (2, 2), (2, 3))
             claim(f'{_cls.__name__} {_op} [{_m},{_n}]', tier='quick' if quick else 'thorough')(
                 lambda h, c=_cls, o=_op, m=_m, n=_n: _binop(h, c, o, m, n))
 
